@@ -24,6 +24,7 @@ TS2 = Typedef('TS2', S2)
 SO = Struct('SO', [Field('o', u16, 'optional')])               # struct containing an optional (union arm / element)
 UO = Union('UO', [(1, 'p', SO), (2, 'q', u8)])
 DO = Struct('DO', [Field('v', u8, 'dynamic'), Field('o', u8, 'optional')])   # dynamic struct ending in an optional
+SL = Struct('SL', [Field('l', u16, ('limited', 2))])              # fixed-size struct holding a limited array (a std::vector in the C++ full codec)
 S12 = Struct('S12', [Field('a', u32), Field('b', u32), Field('c', u32)])
 U12 = Union('U12', [(1, 'x', u64), (2, 'y', S12)])             # 8-aligned union whose largest arm is 4 mod 8 bytes long
 
@@ -37,7 +38,7 @@ def _k():
                  ('r32', r32), ('r64', r64), ('E0', E0), ('E1', E1), ('S1', S1), ('S2', S2), ('S8', S8), ('U4', U4), ('U8', U8),
                  ('D', D), ('D8', D8), ('TTU16', TTU16), ('TS2', TS2), ('UO', UO), ('DO', DO), ('U12', U12)]:
         plain(n, t)
-    for n, t in [('u8', u8), ('u16', u16), ('u32', u32), ('u64', u64), ('E1', E1), ('S2', S2), ('S8', S8), ('U4', U4), ('r32', r32)]:
+    for n, t in [('u8', u8), ('u16', u16), ('u32', u32), ('u64', u64), ('E1', E1), ('S2', S2), ('S8', S8), ('U4', U4), ('r32', r32), ('SL', SL)]:
         K['opt_' + n] = lambda nm, t=t: [Field(nm, t, 'optional')]
     for n, t in [('u8', u8), ('u16', u16), ('u64', u64), ('E0', E0), ('S2', S2), ('U8', U8), ('SE5', SE5)]:
         K['fix_' + n] = lambda nm, t=t: [Field(nm, t, ('fixed', 2))]
@@ -66,13 +67,28 @@ def is_last_only(kind):
     return kind.startswith('gre_') or kind in ('bytes_gre', 'plain_G')
 
 
+_SANDWICH = {}
+
+
 def sandwich(kind, pre, post):
-    fs = ([Field('pre', pre)] if pre else []) + KINDS[kind]('k') + ([Field('post', post)] if post else [])
-    return Struct('T_%s_%s_%s' % (kind, pre.name if pre else 'x', post.name if post else 'x'), fs)
+    name = 'T_%s_%s_%s' % (kind, pre.name if pre else 'x', post.name if post else 'x')
+    if name not in _SANDWICH:
+        fs = ([Field('pre', pre)] if pre else []) + KINDS[kind]('k') + ([Field('post', post)] if post else [])
+        _SANDWICH[name] = Struct(name, fs)
+    return _SANDWICH[name]
+
+
+_CURATED = []
 
 
 def curated():
-    """shapes named in the property texts / known-tricky corners"""
+    """shapes named in the property texts / known-tricky corners (one instance per process: shapes are identities)"""
+    if not _CURATED:
+        _CURATED.extend(_curated())
+    return list(_CURATED)
+
+
+def _curated():
     C = []
     C.append(Struct('C_opt8_odd', [Field('a', u8), Field('b', u8, 'optional')]))                       # F01
     C.append(Struct('C_opt16_odd', [Field('a', u8), Field('b', u16, 'optional'), Field('c', u8)]))
@@ -156,7 +172,17 @@ def thorough_family():
 
 
 def family(tier):
-    return {'quick': quick_family, 'rich': rich_family, 'thorough': thorough_family}[tier]()
+    fam = {'quick': quick_family, 'rich': rich_family, 'thorough': thorough_family}[tier]()
+    if tier == 'thorough':
+        # the thorough tier runs under a wall-time budget: VERIF_SEED decides where in the (fixed) list exploration starts
+        import os
+        try:
+            seed = int(os.environ.get('VERIF_SEED', '0') or 0)
+        except ValueError:
+            seed = 0
+        k = (seed * 977) % len(fam)
+        fam = fam[k:] + fam[:k]
+    return fam
 
 
 # ---------------------------------------------------------------- predicates
